@@ -235,7 +235,7 @@ def make_scene(rng, *, flavour='general', margin=MARGIN, integer=False, nonneg=F
         model = model * 8.0
         sigma_n = sigma_n * 8.0
         offset = offset * 8.0
-        error = np.rint(error * 8.0) + 1.0
+        error = np.rint(error * 24.0) + 1.0          # up to ~400: error**2 does not fit int16 / uint16
         bkg = np.rint(bkg * 8.0)
         srcs = [(s[0], s[1], s[2] * 8.0) + s[3:] for s in srcs]
     # segmentation map from the noise-free model (scipy.ndimage.label is trusted base)
@@ -391,6 +391,26 @@ def add_hostile_segments(rng, data, model, segm, mask, srcs, margin):
                     mask[y0:y0 + h, x0:x0 + w] = True
                     break
     return segm, mask, kinds
+
+
+def make_pedestal_image(rng, integer_ok=True):
+    """Raw-frame-like image: large sky pedestal, small scatter, many pixels (>= 150 x 170), a few sources and a
+    mild gradient. Every value is an integer in [0, 32500] so that the SAME numbers are exactly representable as
+    float32, int16, int32, int64 and uint16. mean / scatter ~ 1e3..1e4 is what makes single-precision accumulation
+    visible; an honest float64-accumulated statistic of the float32 input is identical to the float64 one."""
+    ny, nx = int(rng.integers(150, 260)), int(rng.integers(170, 300))
+    ped = float(rng.integers(6000, 30001))
+    sig = float(rng.uniform(3.0, 20.0))
+    yy, xx = np.mgrid[0:ny, 0:nx].astype(float)
+    img = ped + rng.normal(0.0, sig, (ny, nx)) + float(rng.uniform(0, 0.02)) * xx - float(rng.uniform(0, 0.02)) * yy
+    for _ in range(int(rng.integers(0, 6))):
+        img += gauss2d(yy, xx, rng.uniform(10, nx - 10), rng.uniform(10, ny - 10), rng.uniform(50, 1500),
+                       rng.uniform(1.2, 3.0), rng.uniform(1.2, 3.0), rng.uniform(0, np.pi))
+    img = np.clip(np.rint(img), 0, 32500)
+    mask = np.zeros((ny, nx), bool)
+    if rng.random() < 0.5:
+        mask |= rng.random((ny, nx)) < 0.01
+    return img, mask, ped, sig
 
 
 def scene_digest_arrays(scene):
